@@ -18,7 +18,7 @@ func init() {
 		Explanation: "Decided structurally: for each of the five rpc type bytes the Go type the sender encodes equals the type the receiver decodes for that byte, which has a case in Raft.processRPC, and the response type the sender decodes into equals the type that RPC's handler passes to Respond; every type byte has a receiver case and unknown bytes are an error; frame order agrees on both sides (type byte ≺ request ≺ flush | read byte ≺ decode request; error string ≺ response | decode string ≺ decode response), InstallSnapshot streams its body after the request and before reading the response on a connection that is always released, the receiver limits its reader to req.Size on the very buffered reader the decoder uses; every struct that crosses the codec has only exported, untagged fields of encodable kinds (recursively); a connection is returned to the pool only when both response decodes succeeded and is released on every encode/decode error; each pipeline has exactly one decoder goroutine, requests are written before being queued, responses are decoded into the queued future's own response object and delivered in queue order, and the pipeline's send side has a single caller chain.",
 		NotDecided:  "value round-trip through the msgpack library (that every field value decodes equal to what was encoded), TCP behaviour, and timing (deadlines).",
 		Assumptions: []string{"go-msgpack encodes every exported untagged field and decodes it back", "a bufio.Reader shared between the decoder and the LimitReader delivers bytes in order"},
-		RuleText:    "C16.R1 sibling-table agreement sender/receiver/handler per rpc constant; R2 must-precede frame-order rules; R3 release-on-error and return-to-pool guards; R4 struct-type facts over the wire types; R5 single decoder goroutine / queue-order rules.",
+		RuleText:    "C16.R1 sibling-table agreement sender/receiver/handler per rpc constant; R2 must-precede frame-order rules; R3 release-on-error and return-to-pool guards; R4 struct-type facts over the wire types; R5 single decoder goroutine / queue-order rules; R6 client-connection wiring (encoder on the flushed writer, dialled and pooled under its own target, handed out and removed from that target's pool only) and RPC.Respond pass-through.",
 		Run:         c16,
 	})
 }
@@ -29,6 +29,113 @@ func c16(c *Ctx) {
 	c16R3(c, "R3")
 	c16R4(c, "R4")
 	c16R5(c, "R5")
+	c16R6(c, "R6")
+}
+
+// c16R6: a client connection is one consistent bundle (encoder writes into the
+// very writer that sendRPC flushes, decoder and writer sit on the dialled
+// stream), it is dialled to and pooled under the target it belongs to, and a
+// pooled connection is handed out only for the target it was pooled under.
+func c16R6(c *Ctx, rule string) {
+	if fn := c.Fn(rule, "(*NetworkTransport).getConn"); fn != nil {
+		want := map[string]func(string) bool{
+			"target": func(d string) bool { return d == "p1" },
+			"conn":   func(d string) bool { return d == "recv.stream.Dial(p1, recv.timeout)#0" },
+			"dec": func(d string) bool {
+				return strings.Contains(d, "codec.NewDecoder(bufio.NewReader(recv.stream.Dial(p1, recv.timeout)#0)")
+			},
+			"w":   func(d string) bool { return strings.HasPrefix(d, "bufio.NewWriterSize(recv.stream.Dial(p1, recv.timeout)#0,") || d == "bufio.NewWriter(recv.stream.Dial(p1, recv.timeout)#0)" },
+			"enc": func(d string) bool { return strings.Contains(d, "codec.NewEncoder(new(netConn).w,") },
+		}
+		var names []string
+		for k := range want {
+			names = append(names, k)
+		}
+		sort.Strings(names)
+		for _, k := range names {
+			f := c.P.LookupField("netConn", k)
+			if f == nil {
+				c.Bad(rule, "anchor:netConn."+k, "-", "field exists", "not found")
+				continue
+			}
+			ws := c.P.FieldWritesIn(fn, f)
+			ok := len(ws) == 1
+			got := "no write"
+			for _, w := range ws {
+				v, _ := c.P.StoredValue(w.Instr, f)
+				got = c.P.D(v)
+				ok = ok && want[k](got)
+			}
+			c.Check(rule, "getConn:netConn."+k, c.P.Pos(fn.Pos()), "a new client connection is dialled to the requested target and its encoder writes into the buffered writer that sendRPC flushes; decoder and writer sit on that same stream", ok, k+" = "+got, 1)
+		}
+		for _, ret := range engine.ReturnsOf(fn) {
+			vals := engine.ReturnValues(ret)
+			d := c.P.D(vals[0])
+			ok := d == "nil" || d == "new(netConn)" || d == "recv.getPooledConn(p1)"
+			c.Check(rule, "getConn:returns-conn-of-target", c.P.InstrPos(ret), "getConn returns the pooled connection of this target or the one it just dialled to it", ok, "returns "+d, 1)
+		}
+	}
+	if fn := c.Fn(rule, "(*NetworkTransport).returnConn"); fn != nil {
+		n := 0
+		engine.EachInstr(fn, func(in ssa.Instruction) {
+			if mu, ok := in.(*ssa.MapUpdate); ok && c.P.D(mu.Map) == "recv.connPool" {
+				n++
+				c.Check(rule, "returnConn:pooled-under-own-target", c.P.InstrPos(in), "a connection is pooled under the address it is connected to", c.P.D(mu.Key) == "p1.target", "key "+c.P.D(mu.Key), 1)
+			}
+		})
+		if n != 1 {
+			c.Bad(rule, "returnConn:pool-update", c.P.Pos(fn.Pos()), "one update of connPool", fmt.Sprintf("%d", n))
+		}
+	}
+	if fn := c.Fn(rule, "(*NetworkTransport).getPooledConn"); fn != nil {
+		for _, ret := range engine.ReturnsOf(fn) {
+			d := c.P.D(engine.ReturnValues(ret)[0])
+			// the named result cell: every store into it is nil or an element of connPool[p1]
+			_ = d
+		}
+		n := 0
+		engine.EachInstr(fn, func(in ssa.Instruction) {
+			st, ok := in.(*ssa.Store)
+			if !ok || !strings.HasPrefix(c.P.D(st.Addr), "new(*netConn)") {
+				return
+			}
+			n++
+			d := c.P.D(st.Val)
+			c.Check(rule, "getPooledConn:only-from-targets-pool", c.P.InstrPos(in), "a pooled connection is handed out only from the pool of the requested target", d == "nil" || strings.HasPrefix(d, "recv.connPool[p1]#0["), "result = "+d, 1)
+		})
+		m := 0
+		engine.EachInstr(fn, func(in ssa.Instruction) {
+			if mu, ok := in.(*ssa.MapUpdate); ok && c.P.D(mu.Map) == "recv.connPool" {
+				m++
+				c.Check(rule, "getPooledConn:removes-from-same-pool", c.P.InstrPos(in), "the connection handed out is removed from that same target's pool (no connection is shared by two users)", c.P.D(mu.Key) == "p1" && strings.HasPrefix(c.P.D(mu.Value), "recv.connPool[p1]#0[:(len(recv.connPool[p1]#0) - 1)"), "connPool["+c.P.D(mu.Key)+"] = "+c.P.D(mu.Value), 1)
+			}
+		})
+		if n == 0 || m != 1 {
+			c.Bad(rule, "getPooledConn:shape", c.P.Pos(fn.Pos()), "result stores and one pool update", fmt.Sprintf("%d stores, %d updates", n, m))
+		}
+	}
+	if fn := c.Fn(rule, "(*RPC).Respond"); fn != nil {
+		ok := false
+		n := 0
+		engine.EachInstr(fn, func(in ssa.Instruction) {
+			if s, isSend := in.(*ssa.Send); isSend {
+				n++
+				ok = c.P.D(s.Chan) == "recv.RespChan" && strings.HasPrefix(c.P.D(s.X), "new(RPCResponse)")
+			}
+		})
+		for _, pr := range [][2]string{{"Response", "p1"}, {"Error", "p2"}} {
+			f := c.P.LookupField("RPCResponse", pr[0])
+			if f == nil {
+				ok = false
+				continue
+			}
+			for _, w := range c.P.FieldWritesIn(fn, f) {
+				v, _ := c.P.StoredValue(w.Instr, f)
+				ok = ok && c.P.D(v) == pr[1]
+			}
+		}
+		c.Check(rule, "RPC.Respond:delivers-what-handler-gave", c.P.Pos(fn.Pos()), "Respond sends exactly (resp, err) on this RPC's own response channel", ok && n == 1, fmt.Sprintf("%d sends", n), 1)
+	}
 }
 
 // rpcConsts maps the numeric value of each rpc* constant to its name.
